@@ -12,7 +12,7 @@ Notation ctx0 buf off nf := {| ubuf := buf; uoff := off; unfds := nf; udepth := 
 (* every type of a parsed signature may be decoded *)
 Lemma parse_description_types_ok s ts : parse_description s = Ok ts -> Forall (fun t => type_ok t = true) ts.
 Proof.
-  intros H. apply parse_description_spec in H. destruct H as (_ & Hl & Hw & Hd & ->).
+  intros H. apply parse_description_spec in H. destruct H as (Hl & Hw & Hd & ->).
   assert (G : forall ts pre, len (pre ++ to_str_list ts) <= 255 -> forallb wf ts = true -> forallb (depth_ok 0 0) ts = true ->
               Forall (fun t => type_ok t = true) ts).
   { clear. induction ts as [|t r IH]; intros pre Hl Hw Hd; [constructor|]. cbn [forallb to_str_list flat_map] in *.
@@ -133,7 +133,11 @@ Theorem body_agree be sigbytes buf : bytes_ok buf ->
 Proof.
   intros Hb. unfold op_body_validate, body_unmarshall_all. destruct sigbytes as [|s0 sr].
   - destruct buf as [|b0 br]; [split; [now exists []|reflexivity]|].
-    replace (parse_description []) with (@Err (list ty)) by reflexivity. split; [discriminate|intros [vs E]; discriminate].
+    (* the empty signature parses to no types (Ok [] since /repo f8eb89e); a non-empty body is refused *)
+    change (parse_description []) with (Ok (@nil ty)). cbv iota.
+    split; [|intros [vs E]; discriminate].
+    unfold body_validate. cbn [validate_seq]. rewrite len_cons.
+    destruct (N.eqb_spec 0 (1 + len br)) as [E0|_]; [lia|discriminate].
   - destruct (parse_description (s0 :: sr)) as [tys| | | |] eqn:Ep; cbn [bind];
       try (split; [discriminate|intros [vs E]; discriminate]).
     apply body_tys_agree; [exact Hb|exact (parse_description_types_ok _ _ Ep)].
